@@ -150,7 +150,7 @@ pub fn send_many(n: usize, len: usize, sb: u32, mask: u32) {
     while i < cnt {
         let a = env::att(i);
         if a.has_hdr {
-            assert!(a.nfds <= 64, "C15: a header packet carries more descriptors than the receiver can take");
+            assert!(a.nfds <= ph::max_fds_in_cmsg(), "C15: a header packet carries more descriptors than the receiver can take");
             if a.ok {
                 header_ok = true;
                 assert!(a.nfds == n + if a.len < len { 1 } else { 0 }, "C15: accepted message does not carry all attachments");
